@@ -35,7 +35,7 @@ def _rows_of(t, data: Sym, cluster: Sym):
 def r1(ctx):
     ana = ctx.ana
     fi = ana.func(STATS)
-    b = ana.builder(fi, no_inline=lambda f: True)
+    b = ana.builder(fi, no_inline=ana.known)
     params = fi.params
     if len(params) < 3:
         raise AnalysisError(f"{STATS} no longer has (cluster, training_data, flag) parameters")
@@ -88,7 +88,7 @@ def r1(ctx):
 def r2(ctx):
     ana = ctx.ana
     fi = ana.func(STATS)
-    b = ana.builder(fi, no_inline=lambda f: True)
+    b = ana.builder(fi, no_inline=ana.known)
     flag = fi.params[2]
     covs = [s for s in b.stores() if s.attr == "empirical_covariance"]
     if not covs:
@@ -121,7 +121,7 @@ def r2(ctx):
 def r3(ctx):
     ana = ctx.ana
     fi = ana.func(ALL_STATS)
-    b = ana.builder(fi, no_inline=lambda f: True)
+    b = ana.builder(fi, no_inline=ana.known)
     stats = ana.func(STATS)
     found = False
     for s in b.stores():
@@ -138,7 +138,7 @@ def r3(ctx):
         data_ok = len(v.args) >= 2 and v.args[1] == Sym(fi.params[1])
         ctx.check(data_ok, fi, "the update reads the training data given to the phase", line=s.stmt.lineno, role="data",
                   expected=fi.params[1], found=str(v.args[1]) if len(v.args) > 1 else "")
-        rng = b.loop_range(s.loops[-1]) if s.loops and isinstance(s.loops[-1], ast.For) else None
+        rng = s.loop_ranges[-1] if s.loops else None
         want = Range(0, Attr(Attr(Sym(fi.params[0]), "arguments"), "num_clusters"))
         ctx.check(rng == want, fi, "the loop visits every cluster id in range(num_clusters)", line=s.stmt.lineno, role="range",
                   expected=str(want), found=str(rng))
@@ -170,7 +170,7 @@ def r4(ctx):
     ana = ctx.ana
     setup = ana.func("graphical_lasso._setup_optimization_task")
     target = ana.func("admm.front_end.admm_optimize_theta")
-    b = ana.builder(setup, no_inline=lambda f: True)
+    b = ana.builder(setup, no_inline=ana.known)
     rt = b.return_term()
     if not (isinstance(rt, App) and rt.fn in (".apply_async", ".apply", ".submit")):
         raise AnalysisError(f"_setup_optimization_task does not return pool.apply_async(...): {str(rt)[:80]}")
@@ -207,7 +207,7 @@ def r4(ctx):
               expected=str(sorted(controls)), found=str(kw_keys))
     # call site of the setup helper
     caller = ana.func("graphical_lasso.optimize_markov_random_fields")
-    bc = ana.builder(caller, no_inline=lambda f: True)
+    bc = ana.builder(caller, no_inline=ana.known)
     calls = [x for s in bc.stores() for x in tm.subterms(s.value) if isinstance(x, App) and x.fn == setup.qualname]
     if not calls:
         for n in Resolver.walk_own(caller.node):
